@@ -1,6 +1,6 @@
 #!/usr/bin/env python3
 """Confirm a sub-agent's seeded change in its scratch worktree and store it under /verif/seeded/.
-usage: confirm_seed.py C05 A 'C05,C03'   (property id, change letter, properties it breaks)"""
+usage: [WT=worktree SD=seeddir] confirm_seed.py C05 A 'C05,C03'   (property id, change letter, properties it breaks)"""
 import json, os, re, shutil, subprocess, sys
 ENV = dict(os.environ, GOFLAGS="-mod=mod", GOPROXY="off", GOSUMDB="off", GOTOOLCHAIN="local")
 def sh(cmd, cwd):
@@ -9,7 +9,7 @@ def sh(cmd, cwd):
     return p.returncode, p.stdout
 pid, x = sys.argv[1], sys.argv[2]
 breaks = sys.argv[3].split(",") if len(sys.argv) > 3 else [pid]
-wt, sd = f"/tmp/wt/{pid}", f"/tmp/seeds/{pid}"
+wt, sd = os.environ.get("WT", f"/tmp/wt/{pid}"), os.environ.get("SD", f"/tmp/seeds/{pid}")
 diff, demo, md = f"{sd}/{x}.diff", f"{sd}/{x}_demo_test.go", f"{sd}/{x}.md"
 log = []
 def step(name, ok, detail=""):
